@@ -63,6 +63,7 @@ def run_deductive(rep):
               "Lean 4 kernel + Mathlib (thorough tier)", "z3", "pyvc symbolic executor")
     items = [(SignedWeights(), [("utility_diff_dropped", verify.replace_expr("self.utility_diff * self.U.dot(lambda_vec)", "self.U.dot(lambda_vec)"))]),
              (Gamma(), []),
+             (Gamma(column_output=True), [("column_output_broadcast_into_a_matrix", verify.replace_expr("np.squeeze(predictions)", "predictions"))]),
              (ProjectLambda(), [("clip_the_wrong_side", verify.replace_expr("lambda_pos < 0.0", "lambda_pos > 0.0"))]),
              (LossSignedWeights(True), [("multiplier_not_divided_by_group_probability", verify.replace_expr("lambda_vec / self.prob_attr", "lambda_vec"))]),
              (LossSignedWeights(False), []),
